@@ -48,6 +48,8 @@ def run_nm(rng, obs):
     x0 = [round(rng.uniform(-3, 3), 2) for _ in range(dim)]
     if rng.random() < 0.3: x0[rng.randrange(dim)] = 0.0       # zdelt path
     if rng.random() < 0.05: x0 = [0.0] * dim
+    if rng.random() < 0.15:       # tiny but non-zero components are displaced relatively (x 1.05), only exact zeros get the absolute step
+        x0[rng.randrange(dim)] = rng.choice([1e-9, -5e-9, 3e-12, 1e-8, -2e-7])
     xtol = rng.choice([1e-4, 1e-2, 1e-6]); ftol = rng.choice([1e-4, 1e-2, 1e-8])
     maxiter = rng.choice([None, None, 3, 17, 60]); maxfun = rng.choice([None, None, 10, 45, 150])
     adaptive = rng.random() < 0.3
